@@ -227,3 +227,57 @@ pub fn run_case(case: &Value, out: &mut Out) {
         _ => out.count("unknown-type.pscalar"),
     }
 }
+
+// ---- seeded driver for trace validation (spec/TracePortable.tla) ------------------------------------
+macro_rules! int_event {
+    (@neg $P:ty, $N:ty, true, $p:expr, $arith:expr) => { $arith(guarded(|| <$N>::from(-$p))) };
+    (@neg $P:ty, $N:ty, false, $p:expr, $arith:expr) => { serde_json::json!({"v": [], "panicked": false}) };
+    ($P:ty, $N:ty, $name:expr, $be:expr, $signed:tt, $rng:expr) => {{
+        let rng: &mut crate::drive::Rng = $rng;
+        let w = size_of::<$N>();
+        let draw = |rng: &mut crate::drive::Rng| -> $N {
+            let mut b = [0u8; 8];
+            match rng.below(6) {
+                0 => { let k = rng.below(w); b[k] = rng.byte(); }                       // small / single byte set
+                1 => { for x in b.iter_mut().take(w) { *x = 0xFF; } let k = rng.below(w); b[k] = rng.byte(); }
+                _ => { for x in b.iter_mut().take(w) { *x = (rng.next() & 0xFF) as u8; } }
+            }
+            <$N>::from_le_bytes(b[..w].try_into().unwrap())
+        };
+        let (x, y) = (draw(rng), draw(rng));
+        let (p, q) = (<$P>::from(x), <$P>::from(y));
+        let d = |v: $N| v.to_le_bytes().to_vec();
+        let arith = |r: Obs<$N>| match r { Obs::Ret(v) => serde_json::json!({"v": d(v), "panicked": false}), Obs::Panic(_) => serde_json::json!({"v": [], "panicked": true}) };
+        let opt8u = |o: Option<u64>| match o { Some(v) => serde_json::json!({"some": true, "v": v.to_le_bytes().to_vec()}), None => serde_json::json!({"some": false, "v": []}) };
+        let opt8i = |o: Option<i64>| match o { Some(v) => serde_json::json!({"some": true, "v": v.to_le_bytes().to_vec()}), None => serde_json::json!({"some": false, "v": []}) };
+        let optp = |o: Option<$P>| match o { Some(v) => serde_json::json!({"some": true, "v": d(<$N>::from(v))}), None => serde_json::json!({"some": false, "v": []}) };
+        let zext = { let mut b = [0u8; 8]; b[..w].copy_from_slice(&x.to_le_bytes()); u64::from_le_bytes(b) };
+        let sext = { let mut b = [if x.to_le_bytes()[w - 1] >= 128 { 0xFFu8 } else { 0 }; 8]; b[..w].copy_from_slice(&x.to_le_bytes()); i64::from_le_bytes(b) };
+        let c = match p.cmp(&q) { std::cmp::Ordering::Less => -1, std::cmp::Ordering::Equal => 0, _ => 1 };
+        serde_json::json!({
+            "ty": $name, "w": w, "be": $be, "sg": $signed, "a": d(x), "b": d(y),
+            "stored": p.to_bytes().to_vec(), "cmp": c, "eq": p == q,
+            "add": arith(guarded(|| <$N>::from(p + q))), "sub": arith(guarded(|| <$N>::from(p - q))),
+            "neg": int_event!(@neg $P, $N, $signed, p, arith),
+            "to_u64": opt8u(p.to_u64()), "to_i64": opt8i(p.to_i64()),
+            "from_u64": optp(<$P>::from_u64(zext)), "from_i64": optp(<$P>::from_i64(sext)),
+        })
+    }};
+}
+
+pub fn drive_pscalar(rng: &mut crate::drive::Rng) -> Value {
+    match rng.below(12) {
+        0 => int_event!(le::U16, u16, "le::U16", false, false, rng),
+        1 => int_event!(le::U32, u32, "le::U32", false, false, rng),
+        2 => int_event!(le::U64, u64, "le::U64", false, false, rng),
+        3 => int_event!(le::I16, i16, "le::I16", false, true, rng),
+        4 => int_event!(le::I32, i32, "le::I32", false, true, rng),
+        5 => int_event!(le::I64, i64, "le::I64", false, true, rng),
+        6 => int_event!(be::U16, u16, "be::U16", true, false, rng),
+        7 => int_event!(be::U32, u32, "be::U32", true, false, rng),
+        8 => int_event!(be::U64, u64, "be::U64", true, false, rng),
+        9 => int_event!(be::I16, i16, "be::I16", true, true, rng),
+        10 => int_event!(be::I32, i32, "be::I32", true, true, rng),
+        _ => int_event!(be::I64, i64, "be::I64", true, true, rng),
+    }
+}
